@@ -44,6 +44,33 @@ fn main() {
             cases::write_lines(&out, &lines);
             println!("cases {}", lines.len());
         }
+        Some("trace-bodies") => {
+            let inputs = cases::resolve_inputs(&get("inputs", "gen:100"), seed);
+            let cfg = wv::run::Cfg::default();
+            let gc: u32 = get("gc", "0").parse().unwrap();
+            let shards: usize = get("shards", "1").parse().unwrap();
+            let lines: Vec<_> = inputs.par_iter().map(|i| cases::bodies_case(i, &cfg, gc)).collect();
+            // outcomes that are not "ok" are reported on a side channel (the matcher only sees bodies)
+            let mut bad = vec![];
+            let mut good = vec![];
+            for l in lines {
+                if l["outcome"] != "ok" { bad.push(l) } else { good.push(l) }
+            }
+            let per = (good.len() + shards - 1) / shards.max(1);
+            for (s, chunk) in good.chunks_mut(per.max(1)).enumerate() {
+                cases::assign_bases(chunk);
+                cases::write_lines(&format!("{}.{}", out, s), chunk);
+            }
+            cases::write_lines(&format!("{}.bad", out), &bad);
+            println!("cases {} bad {}", good.len(), bad.len());
+        }
+        Some("trace-gc") => {
+            let inputs = cases::resolve_inputs(&get("inputs", "gen:100"), seed);
+            let cfg = wv::run::Cfg::default();
+            let lines: Vec<_> = inputs.par_iter().map(|i| cases::gc_case(i, &cfg)).collect();
+            cases::write_lines(&out, &lines);
+            println!("cases {}", lines.len());
+        }
         Some("input") => {
             // print the bytes of one input (hex) given its source string
             let src = get("source", "");
